@@ -308,18 +308,6 @@ Definition gomodb_case_model_ok (c : gomodb_case) : bool :=
 Definition gomodb_case_modelled (c : gomodb_case) : bool := negb (unmodelled (parse_gomod_bytes (gbc_oracle c) (gbc_bytes c))).
 Definition gomodb_case_claimed (c : gomodb_case) : bool :=
   match gbc_claim c with None => false | Some d => wf_gm_doc (gbc_oracle c) d && wf_gomod (recs_of_dirs (doc_dirs d)) end.
-Definition gomodb_case_full_spec_ok (c : gomodb_case) : bool :=
-  match gbc_claim c with
-  | None => true
-  | Some d => negb (wf_gm_doc (gbc_oracle c) d && wf_gomod_base (recs_of_dirs (doc_dirs d))) ||
-              same_outcome (gbc_obs c) (Ok (expected_gomod_doc d))
-  end.
-Definition gomodb_case_wf_outside_D (c : gomodb_case) : bool :=
-  match gbc_claim c with
-  | None => false
-  | Some d => wf_gm_doc (gbc_oracle c) d && wf_gomod_base (recs_of_dirs (doc_dirs d)) &&
-              negb (gomod_chain_ok (gq_replaces (recs_of_dirs (doc_dirs d))))
-  end.
 Definition gomodb_case_spec_ok (c : gomodb_case) : bool :=
   match gbc_claim c with
   | None => negb (is_panic (gbc_obs c))
